@@ -493,6 +493,11 @@ def run(prog, rep, tier):
              'performed under the same branch conditions')
     if check_augassign_guards(prog, rep, pairs, pyx) < 1:
         raise AnalysisError('PAIR-augassign-guards: no common in-place update found in the twins')
+    from ..flow import check_state_derived_agree
+    rep.rule('STATE-derived-agree', '__setstate__ derives python-only cached fields (_mask, '
+             '_mod_masked) by the same expressions as __init__')
+    if check_state_derived_agree(prog, rep, ['tenpy/linalg/charges.py']) < 4:
+        raise AnalysisError('STATE-derived-agree: ChargeInfo.__init__/__setstate__ not found')
     if check_raise_guards(prog, rep, pairs, pyx) < 3:
         raise AnalysisError('PAIR-raise-guards: fewer than 3 common raises in the twins')
     rep.floor('PAIR-regions', 15)
